@@ -344,17 +344,30 @@ func init() {
 			bd := c.Fn("Association.bundleDataChunksIntoPackets")
 			mtu := c.Fn("Association.MTU")
 			var flush *ssa.If
+			overflowSucc := 0
+			sizeP := Derives(IsCallOf(c.Fn("chunkPayloadData.chunkSizeInPacket")))
+			mtuP := Derives(IsCallOf(mtu))
 			forEachInstr(bd, func(in ssa.Instruction) {
-				if ifi, ok := in.(*ssa.If); ok {
-					if b, ok := ifi.Cond.(*ssa.BinOp); ok && b.Op == token.GTR && Derives(IsCallOf(mtu))(b.Y) && Derives(IsCallOf(c.Fn("chunkPayloadData.chunkSizeInPacket")))(b.X) {
-						flush = ifi
-					}
+				ifi, ok := in.(*ssa.If)
+				if !ok {
+					return
+				}
+				b, ok := ifi.Cond.(*ssa.BinOp)
+				if !ok {
+					return
+				}
+				// normalise to "size > mtu": which successor is the overflow side?
+				switch {
+				case b.Op == token.GTR && sizeP(b.X) && mtuP(b.Y), b.Op == token.LSS && mtuP(b.X) && sizeP(b.Y):
+					flush, overflowSucc = ifi, 0
+				case b.Op == token.LEQ && sizeP(b.X) && mtuP(b.Y), b.Op == token.GEQ && mtuP(b.X) && sizeP(b.Y):
+					flush, overflowSucc = ifi, 1
 				}
 			})
 			if flush == nil {
 				c.Fail("bundle-flush-test", c.P.Pos(bd.Pos()), "bytesInPacket+chunkSize > MTU() test not found in the bundler")
 			} else {
-				ok, _ := MustPassFromBlock(flush.Block().Succs[0], c.P.CallTargetPred(0, c.Fn("Association.createPacket")), PathOpts{})
+				ok, _ := MustPassFromBlock(flush.Block().Succs[overflowSucc], c.P.CallTargetPred(0, c.Fn("Association.createPacket")), PathOpts{})
 				c.Check(ok, "bundle-flush-test", c.Pos(flush), "exceeding the MTU flushes the current packet before the chunk is added", "MTU overflow does not start a new packet")
 				// every append of a chunk happens after the test
 				forEachInstr(bd, func(in ssa.Instruction) {
